@@ -25,6 +25,7 @@ func registerStreams(m map[string]Stream) {
 	m["tdlive"] = tdLiveStream{}
 	m["session"] = sessionStream{}
 	m["tdbindwire"] = tdBindWireStream{}
+	m["tddir"] = tdDirStream{}
 	m["hostile-live"] = hostileLiveStream{}
 	m["addr"] = addrStream{}
 }
